@@ -4363,3 +4363,446 @@ func receiverIsHandle(p *Program, f *FuncSrc, info *types.Info, ce *ast.CallExpr
 	back(start, startIdx-1)
 	return handle
 }
+
+// ---- round 11 ----
+
+// C01.merge-unconditional (also C02): when a list-carrying clause (WHERE, GROUP BY/HAVING, ORDER BY, RETURNING) is
+// merged into an existing one, the EARLIER list - with the bound values of its expressions - is kept whatever the
+// new clause carries.  Decided: in each MergeClause, the store that builds <recv>.<List> from the earlier clause's
+// list is not nested in a condition that reads the receiver's own lists (it may depend on the earlier list only).
+func checkMergeUnconditional(c *Ctx, r *Rule) {
+	p := c.P
+	// Returning is left out: an empty column list there means RETURNING * - a new clause without columns legitimately
+	// supersedes the earlier list, and the clause carries no bound values
+	lists := map[string][]string{"Where": {"Exprs"}, "GroupBy": {"Columns", "Having"}, "OrderBy": {"Columns"}}
+	var tnames []string
+	for n := range lists {
+		tnames = append(tnames, n)
+	}
+	sort.Strings(tnames)
+	for _, tn := range tnames {
+		f := p.MethodDecl(pkgClause, tn, "MergeClause")
+		c.Touch(f)
+		info := f.Pkg.TypesInfo
+		recv := recvName(f)
+		parents := parentMap(f.Body)
+		for _, lf := range lists[tn] {
+			var store *ast.AssignStmt
+			ast.Inspect(f.Body, func(n ast.Node) bool {
+				as, ok := n.(*ast.AssignStmt)
+				if !ok || len(as.Lhs) != 1 {
+					return true
+				}
+				if sel, ok := unparen(as.Lhs[0]).(*ast.SelectorExpr); ok && sel.Sel.Name == lf {
+					if id, ok := unparen(sel.X).(*ast.Ident); ok && id.Name == recv {
+						store = as
+					}
+				}
+				return true
+			})
+			if store == nil {
+				r.Bad(f.Name(), "merge of "+lf, f.Body.Pos(), "MergeClause no longer builds "+recv+"."+lf+" from the earlier clause")
+				continue
+			}
+			bad := ""
+			for cur := parents[store]; cur != nil; cur = parents[cur] {
+				ifs, ok := cur.(*ast.IfStmt)
+				if !ok {
+					continue
+				}
+				ast.Inspect(ifs.Cond, func(m ast.Node) bool {
+					if sel, ok := m.(*ast.SelectorExpr); ok {
+						if id, ok := unparen(sel.X).(*ast.Ident); ok && id.Name == recv && info.Uses[id] != nil {
+							bad = types.ExprString(ifs.Cond)
+						}
+					}
+					return true
+				})
+			}
+			r.Check(bad == "", f.Name(), "earlier "+lf+" kept", store.Pos(), "whatever the new clause carries", tn+".MergeClause keeps the earlier clause's "+lf+" only under `"+bad+"`, a condition on the NEW clause: a later call that carries none (e.g. Group after Having) drops the earlier expressions together with their bound values")
+		}
+	}
+}
+
+// C02.inline-and: the inline conditions of a finisher are ANDed onto the chain's conditions - they are merged with
+// AddClause.  AddClauseIfNotExists would silently drop them whenever the chain already has a WHERE.  Decided: no
+// clause.Where reaches AddClauseIfNotExists in packages gorm and callbacks.
+func checkC02InlineAnd(c *Ctx) {
+	p := c.P
+	r := c.Rule("C02.inline-and", "WHERE conditions are always merged (AddClause), never added only-if-absent", 10)
+	stmtT := p.Named(pkgGorm, "Statement")
+	addClause := p.Method(stmtT, "AddClause")
+	addIfNot := p.Method(stmtT, "AddClauseIfNotExists")
+	whereT := p.Named(pkgClause, "Where")
+	for _, f := range p.FuncsOf(pkgGorm, pkgCallbacks) {
+		if f.Body == nil {
+			continue
+		}
+		info := f.Pkg.TypesInfo
+		for _, call := range callsIn(f) {
+			fn, _ := typeutil.Callee(info, call).(*types.Func)
+			if (fn != addClause && fn != addIfNot) || len(call.Args) != 1 {
+				continue
+			}
+			if !types.Identical(info.TypeOf(call.Args[0]), whereT) {
+				continue
+			}
+			c.Touch(f)
+			r.Check(fn == addClause, f.Name(), "WHERE added", call.Pos(), "merged with the statement's conditions", "a WHERE clause is added with AddClauseIfNotExists: when the chain already has conditions, this one (e.g. the inline condition of Delete) is silently dropped and the statement matches more rows")
+		}
+	}
+}
+
+// C03.value-owned: what a serializer's Value hands to database/sql is read by the driver AFTER Value returned (all
+// arguments of a statement are converted first).  It must not alias memory that the function gives back to a pool.
+// Decided for all repository functions: a function that Puts a local into a sync.Pool does not return an expression
+// that mentions that local.
+func checkC03ValueOwned(c *Ctx) {
+	p := c.P
+	r := c.Rule("C03.value-owned", "no function returns memory of an object it has handed back to a sync.Pool", 1)
+	poolT := p.StdNamed("sync", "Pool")
+	n := 0
+	for _, f := range p.FuncsOf(pkgSchema, pkgGorm, pkgCallbacks, pkgClause, pkgMigrator) {
+		if f.Body == nil {
+			continue
+		}
+		info := f.Pkg.TypesInfo
+		var puts []types.Object
+		ast.Inspect(f.Body, func(x ast.Node) bool {
+			if fl, ok := x.(*ast.FuncLit); ok && fl != f.Lit {
+				return false
+			}
+			ce, ok := x.(*ast.CallExpr)
+			if !ok || len(ce.Args) != 1 {
+				return true
+			}
+			sel, ok := ce.Fun.(*ast.SelectorExpr)
+			if !ok || sel.Sel.Name != "Put" {
+				return true
+			}
+			if derefNamed(info.TypeOf(sel.X)) != poolT {
+				// FieldNewValuePool interface of schema
+				if nm := namedOf(info.TypeOf(sel.X)); nm != pkgSchema+".FieldNewValuePool" {
+					return true
+				}
+			}
+			if id := rootIdentOf(ce.Args[0]); id != nil {
+				if o := info.ObjectOf(id); o != nil {
+					puts = append(puts, o)
+				}
+			}
+			return true
+		})
+		if len(puts) == 0 {
+			continue
+		}
+		n++
+		bad := ""
+		ast.Inspect(f.Body, func(x ast.Node) bool {
+			if fl, ok := x.(*ast.FuncLit); ok && fl != f.Lit {
+				return false
+			}
+			rs, ok := x.(*ast.ReturnStmt)
+			if !ok {
+				return true
+			}
+			for _, res := range rs.Results {
+				ast.Inspect(res, func(m ast.Node) bool {
+					if id, ok := m.(*ast.Ident); ok {
+						for _, o := range puts {
+							if info.Uses[id] == o {
+								bad = types.ExprString(res)
+							}
+						}
+					}
+					return true
+				})
+			}
+			return true
+		})
+		c.Touch(f)
+		r.Check(bad == "", f.Name(), "pooled object", f.Body.Pos(), "nothing of it is returned", "the function returns `"+bad+"` although it hands that object back to a pool: the caller (for a serializer's Value: database/sql, which converts every argument before it runs the statement) reads memory the next user of the pool is already overwriting")
+	}
+	if n == 0 {
+		r.Unknown("schema", "pools", token.NoPos, "no function putting an object back into a pool found")
+	}
+}
+
+// C04.err-unchanged: "errors and panics propagate to the caller unchanged": the clean-up of a Transaction block
+// (its deferred functions) only READS the named result; the result is assigned from the block's function, from
+// Commit and from the failure to begin - never from the rollback that the clean-up performs.
+func checkC04ErrUnchanged(c *Ctx) {
+	p := c.P
+	r := c.Rule("C04.err-unchanged", "the deferred clean-up of Transaction never assigns the named result", 2)
+	f := p.MethodDecl(pkgGorm, "DB", "Transaction")
+	c.Touch(f)
+	info := f.Pkg.TypesInfo
+	var res types.Object
+	if f.Decl.Type.Results != nil {
+		for _, fl := range f.Decl.Type.Results.List {
+			for _, nm := range fl.Names {
+				res = info.Defs[nm]
+			}
+		}
+	}
+	if res == nil {
+		r.Bad(f.Name(), "named result", f.Body.Pos(), "Transaction has no named error result any more; rule lost its anchor")
+		return
+	}
+	ast.Inspect(f.Body, func(n ast.Node) bool {
+		ds, ok := n.(*ast.DeferStmt)
+		if !ok {
+			return true
+		}
+		bad := token.NoPos
+		ast.Inspect(ds, func(m ast.Node) bool {
+			if as, ok := m.(*ast.AssignStmt); ok {
+				for _, l := range as.Lhs {
+					if id, ok := unparen(l).(*ast.Ident); ok && info.ObjectOf(id) == res {
+						bad = as.Pos()
+					}
+				}
+			}
+			return true
+		})
+		pos := ds.Pos()
+		if bad != token.NoPos {
+			pos = bad
+		}
+		r.Check(bad == token.NoPos, f.Name(), "deferred clean-up", pos, "reads the result only", "the deferred clean-up of a Transaction block assigns the named result: the error (or commit failure) the caller should receive is replaced by the outcome of the rollback - e.g. sql.ErrTxDone after a failed COMMIT")
+		return true
+	})
+}
+
+// C05.nested-unconditional: the error of a nested finisher (the saves of associated records) is recorded on the
+// operation whenever it is non-nil - not only when it differs from some other error value.  Decided in package
+// callbacks: where the .Error of a finisher call is bound by an `if` initialiser, the condition is a plain nil test
+// of it.
+func checkC05NestedUnconditional(c *Ctx) {
+	p := c.P
+	r := c.Rule("C05.nested-unconditional", "the error of a nested finisher is recorded whenever it is non-nil (no comparison with another error decides)", 1)
+	dbT := p.Named(pkgGorm, "DB")
+	errF := p.Field(dbT, "Error")
+	fins := map[*types.Func]bool{}
+	for fn := range finisherSet(p) {
+		if o, ok := fn.Object().(*types.Func); ok {
+			fins[o] = true
+		}
+	}
+	n := 0
+	for _, f := range p.FuncsOf(pkgCallbacks) {
+		if f.Body == nil {
+			continue
+		}
+		info := f.Pkg.TypesInfo
+		isFinErr := func(e ast.Expr) bool {
+			sel, ok := unparen(e).(*ast.SelectorExpr)
+			if !ok || !fieldSel(info, sel, errF) {
+				return false
+			}
+			ce, ok := unparen(sel.X).(*ast.CallExpr)
+			if !ok {
+				return false
+			}
+			fn, _ := typeutil.Callee(info, ce).(*types.Func)
+			return fn != nil && fins[fn]
+		}
+		ast.Inspect(f.Body, func(x ast.Node) bool {
+			if fl, ok := x.(*ast.FuncLit); ok && fl != f.Lit {
+				return false
+			}
+			switch y := x.(type) {
+			case *ast.IfStmt:
+				as, ok := y.Init.(*ast.AssignStmt)
+				if !ok || len(as.Lhs) != 1 || len(as.Rhs) != 1 || !isFinErr(as.Rhs[0]) {
+					return true
+				}
+				id, ok := as.Lhs[0].(*ast.Ident)
+				if !ok {
+					return true
+				}
+				n++
+				c.Touch(f)
+				okc := false
+				if be, ok := unparen(y.Cond).(*ast.BinaryExpr); ok && (be.Op == token.NEQ || be.Op == token.EQL) {
+					l, r2 := unparen(be.X), unparen(be.Y)
+					isV := func(e ast.Expr) bool { i, ok := e.(*ast.Ident); return ok && i.Name == id.Name }
+					isNil := func(e ast.Expr) bool { i, ok := e.(*ast.Ident); return ok && i.Name == "nil" }
+					okc = (isV(l) && isNil(r2)) || (isNil(l) && isV(r2))
+				}
+				r.Check(okc, f.Name(), "error of a nested finisher", y.Pos(), "tested against nil only", "the error of a nested finisher is recorded only under `"+types.ExprString(y.Cond)+"`: when that comparison is false for a real failure (e.g. the nested call ran on the very handle it is compared with) the failure of an association save is lost and the operation commits")
+			case *ast.CallExpr:
+				if fn, _ := typeutil.Callee(info, y).(*types.Func); fn != nil && fn.Name() == "AddError" && len(y.Args) == 1 && isFinErr(y.Args[0]) {
+					n++
+					c.Touch(f)
+					r.OK(f.Name(), "error of a nested finisher", y.Pos(), "handed to AddError directly")
+				}
+			}
+			return true
+		})
+	}
+	if n == 0 {
+		r.Unknown("callbacks", "nested finishers", token.NoPos, "no nested finisher error found in package callbacks")
+	}
+}
+
+// C07.cache-append: a value loaded from a shared cache (sync.Map Load / LoadOrStore) is read-only for everybody who
+// loads it; appending to a slice obtained from it writes into a backing array other goroutines are reading.
+// Decided on SSA for all repository packages.
+func checkC07CacheAppend(c *Ctx) {
+	p := c.P
+	r := c.Rule("C07.cache-append", "slices loaded from a sync.Map cache are never appended to or stored into", 3)
+	p.SSA()
+	isLoad := func(v ssa.Value) bool {
+		call, ok := v.(*ssa.Call)
+		if !ok {
+			return false
+		}
+		sc := call.Call.StaticCallee()
+		if sc == nil || sc.Signature.Recv() == nil {
+			return false
+		}
+		return namedOf(sc.Signature.Recv().Type()) == "sync.Map" && (sc.Name() == "Load" || sc.Name() == "LoadOrStore")
+	}
+	returnsCache := map[*ssa.Function]bool{} // functions that hand a loaded cache value to their caller
+	var fromCache func(v ssa.Value, seen map[ssa.Value]bool) bool
+	fromCache = func(v ssa.Value, seen map[ssa.Value]bool) bool {
+		if v == nil || seen[v] {
+			return false
+		}
+		seen[v] = true
+		if isLoad(v) {
+			return true
+		}
+		switch x := v.(type) {
+		case *ssa.Call:
+			if sc := x.Call.StaticCallee(); sc != nil && returnsCache[sc] {
+				return true
+			}
+		case *ssa.Extract:
+			return fromCache(x.Tuple, seen)
+		case *ssa.TypeAssert:
+			return fromCache(x.X, seen)
+		case *ssa.Phi:
+			for _, e := range x.Edges {
+				if fromCache(e, seen) {
+					return true
+				}
+			}
+		case *ssa.Slice:
+			return fromCache(x.X, seen)
+		case *ssa.ChangeType:
+			return fromCache(x.X, seen)
+		case *ssa.UnOp:
+			if x.Op == token.MUL {
+				if al, ok := x.X.(*ssa.Alloc); ok {
+					for _, st := range cellStores(al) {
+						if fromCache(st, seen) {
+							return true
+						}
+					}
+				}
+				// a field of a local struct: what was stored into that field
+				if fa, ok := x.X.(*ssa.FieldAddr); ok {
+					if al, ok := fa.X.(*ssa.Alloc); ok && al.Referrers() != nil {
+						for _, ref := range *al.Referrers() {
+							if fa2, ok := ref.(*ssa.FieldAddr); ok && fa2.Field == fa.Field && fa2.Referrers() != nil {
+								for _, r2 := range *fa2.Referrers() {
+									if st, ok := r2.(*ssa.Store); ok && st.Addr == ssa.Value(fa2) && fromCache(st.Val, seen) {
+										return true
+									}
+								}
+							}
+						}
+					}
+				}
+			}
+		}
+		return false
+	}
+	for changed := true; changed; {
+		changed = false
+		for _, fn := range p.SSAFuncs() {
+			if fn.Blocks == nil || returnsCache[fn] {
+				continue
+			}
+			forEachInstrFlat(fn, func(in ssa.Instruction) {
+				if ret, ok := in.(*ssa.Return); ok {
+					for _, res := range ret.Results {
+						if _, isSl := res.Type().Underlying().(*types.Slice); isSl && fromCache(res, map[ssa.Value]bool{}) && !returnsCache[fn] {
+							returnsCache[fn] = true
+							changed = true
+						}
+					}
+				}
+			})
+		}
+	}
+	for _, fn := range p.SSAFuncs() {
+		if fn.Blocks == nil {
+			continue
+		}
+		loads, bad := 0, 0
+		forEachInstrFlat(fn, func(in ssa.Instruction) {
+			if v, ok := in.(ssa.Value); ok && isLoad(v) {
+				loads++
+			}
+			switch x := in.(type) {
+			case *ssa.Call:
+				if bi, ok := x.Call.Value.(*ssa.Builtin); ok && bi.Name() == "append" && len(x.Call.Args) > 0 {
+					if _, isSl := x.Call.Args[0].Type().Underlying().(*types.Slice); isSl && fromCache(x.Call.Args[0], map[ssa.Value]bool{}) {
+						bad++
+						r.Bad(ssaFuncName(fn), "append onto a cached slice", x.Pos(), "a slice loaded from a sync.Map cache is appended to: with spare capacity the append writes into the backing array every other goroutine loading the same entry reads")
+					}
+				}
+			case *ssa.Store:
+				if ia, ok := x.Addr.(*ssa.IndexAddr); ok && fromCache(ia.X, map[ssa.Value]bool{}) {
+					if _, isSl := ia.X.Type().Underlying().(*types.Slice); isSl {
+						bad++
+						r.Bad(ssaFuncName(fn), "store into a cached slice", x.Pos(), "an element of a slice loaded from a sync.Map cache is overwritten")
+					}
+				}
+			}
+		})
+		if loads > 0 && bad == 0 {
+			r.OK(ssaFuncName(fn), "loads from a shared cache", fn.Pos(), "the loaded value is only read")
+		}
+	}
+}
+
+// C09.scopes-drained: a scope may register further scopes (d.Scopes(a, b)); the conditions they add are conditions
+// of the chain.  processor.Execute therefore runs scopes UNTIL NONE ARE LEFT before it builds the statement and
+// before the missing-WHERE guard looks at it.  Decided: the call of executeScopes in Execute is the body of a loop
+// whose condition reads Statement.scopes.
+func checkC09ScopesDrained(c *Ctx) {
+	p := c.P
+	r := c.Rule("C09.scopes-drained", "processor.Execute runs scopes in a loop until none are registered", 1)
+	f := p.MethodDecl(pkgGorm, "processor", "Execute")
+	c.Touch(f)
+	info := f.Pkg.TypesInfo
+	es := p.Method(p.Named(pkgGorm, "DB"), "executeScopes")
+	scopesF := p.Field(p.Named(pkgGorm, "Statement"), "scopes")
+	parents := parentMap(f.Body)
+	n := 0
+	for _, call := range callsIn(f) {
+		if fn, _ := typeutil.Callee(info, call).(*types.Func); fn != es {
+			continue
+		}
+		n++
+		okl := false
+		for cur := parents[call]; cur != nil; cur = parents[cur] {
+			if fs, ok := cur.(*ast.ForStmt); ok && fs.Cond != nil {
+				ast.Inspect(fs.Cond, func(m ast.Node) bool {
+					if sel, ok := m.(*ast.SelectorExpr); ok && fieldSel(info, sel, scopesF) {
+						okl = true
+					}
+					return true
+				})
+			}
+		}
+		r.Check(okl, f.Name(), "scopes run before the statement is built", call.Pos(), "in a loop over Statement.scopes", "Execute runs the registered scopes once instead of until none are left: scopes registered by a scope never run, their conditions are missing - a chain whose only condition sits in a nested scope is rejected with ErrMissingWhereClause, or runs without that condition")
+	}
+	if n == 0 {
+		r.Bad(f.Name(), "scopes", f.Body.Pos(), "Execute no longer runs scopes; rule lost its anchor")
+	}
+}
